@@ -7,6 +7,7 @@ Open Scope nat_scope.
 Definition label_of (t : thread local pers op result) : nat :=
   match cur t with
   | Some (LAcq _) => 20
+  | Some (LAcqBack _) => 46
   | Some (LRelZero _ _) => 21
   | Some (LRelLatched _ _) => 22
   | Some (LRelQueued _ _) => 23
